@@ -36,9 +36,9 @@ type Rev struct {
 	// FreeUnlinked (updates only): freed objects are written as "0000000000 65535 f"
 	// (never to be reused, not linked into the free list) and object 0 is not listed
 	// again — an update section may then start with such an entry ("3 1" …)
-	FreeUnlinked bool
-	ObjStmExtends   bool // every object-stream container after the first carries /Extends <previous container> (ISO 32000-1 7.5.7)
-	Mutate          *Mutation
+	FreeUnlinked  bool
+	ObjStmExtends bool // every object-stream container after the first carries /Extends <previous container> (ISO 32000-1 7.5.7)
+	Mutate        *Mutation
 	// filled by WriteRevision: entries per object-stream container, xref stream entries
 	OutObjStmN   []int
 	OutXRefCount int
